@@ -63,6 +63,16 @@ type world struct {
 	addSeq int
 	// activeChanged: the active mode has been changed at least once (before that a dummy mode may be active)
 	activeChanged bool
+	// respErr: a call's own response contradicted what the call is documented to do (set from any goroutine)
+	respErr atomic.Value
+}
+
+// clearedTo checks the response of a successful clear: it selects THE normal mode, in one step, so whatever else is
+// going on the mode it reports is marked normal.
+func (w *world) clearedTo(call string, m *traits.ElectricMode) {
+	if m != nil && !m.Normal {
+		w.respErr.CompareAndSwap(nil, fmt.Sprintf("%s succeeded and reports mode %q as the new active mode, which is not marked normal (normal=%v): clearing selects the normal mode", call, m.Id, m.Normal))
+	}
 }
 
 func newWorld() *world {
@@ -545,10 +555,31 @@ var duelOps = []struct {
 		return err == nil
 	}},
 	{"ClearActiveMode", func(w *world, x, y string) bool {
-		_, err := w.srv.ClearActiveMode(ctx, &traits.ClearActiveModeRequest{Name: "n"})
+		m, err := w.srv.ClearActiveMode(ctx, &traits.ClearActiveModeRequest{Name: "n"})
+		if err == nil {
+			w.clearedTo("ClearActiveMode", m)
+		}
 		return err == nil
 	}},
-	{"ChangeToNormalMode", func(w *world, x, y string) bool { _, err := w.m.ChangeToNormalMode(); return err == nil }},
+	{"ChangeToNormalMode", func(w *world, x, y string) bool {
+		m, err := w.m.ChangeToNormalMode()
+		if err == nil {
+			w.clearedTo("ChangeToNormalMode", m)
+		}
+		return err == nil
+	}},
+	{"UpdateMode(x,not normal)", func(w *world, x, y string) bool {
+		_, _ = w.m.UpdateMode(&traits.ElectricMode{Id: x, Normal: false})
+		return false
+	}},
+	{"UpdateMode(y,not normal)", func(w *world, x, y string) bool {
+		_, _ = w.m.UpdateMode(&traits.ElectricMode{Id: y, Normal: false})
+		return false
+	}},
+	{"server.UpdateMode(x,not normal)", func(w *world, x, y string) bool {
+		_, _ = w.srv.UpdateMode(ctx, &electricpb.UpdateModeRequest{Name: "n", Mode: &traits.ElectricMode{Id: x, Normal: false}})
+		return false
+	}},
 	{"UpdateMode(x,normal)", func(w *world, x, y string) bool {
 		_, _ = w.m.UpdateMode(&traits.ElectricMode{Id: x, Normal: true})
 		return false
@@ -628,6 +659,9 @@ func TestElectricDuels(t *testing.T) {
 			w.activeChanged = w.activeChanged || activated.Load()
 			if err := w.invariants(); err != nil {
 				t.Fatalf("at quiescence after round %d of %s: %v", r, desc, err)
+			}
+			if e := w.respErr.Load(); e != nil {
+				t.Fatalf("round %d of %s: %v", r, desc, e)
 			}
 		}
 		lib.Ev.Class("duel")
